@@ -709,7 +709,7 @@ def run(rep, tier, seed):
         keep = {'keydoor.5x5', 'dynamic_obstacles.5x5', 'memory_four_rooms.7x7', 'crossing.5x5', 'teleport.5x5', 'empty.4x4', 'four_rooms.7x7', 'memory.5x5'}
         mjobs = [j for j in mjobs if j[0] in keep]
     mn = mrej = 0
-    for n, rej, fl in pmap(_mut_work, mjobs + coin):
+    for n, rej, fl in dyn.pmap_w('mut', _mut_work, mjobs + coin):
         mn += n
         mrej += rej
         fails.extend(fl)
@@ -753,3 +753,6 @@ def run(rep, tier, seed):
         rule='cases: one configuration (lockstep action tree against the hand-assembled environment), one single-point '
         'corruption of a configuration tree, one registered component name; all distinct',
     )
+
+
+WORKERS = {'mut': _mut_work}
